@@ -229,6 +229,16 @@ func c20single() []c20op {
 			c, e3 := tglib.GetPDUSessionResourceReleaseResponse(int64(100+ue), int64(ue+1), int64(1+ue))
 			return fmt.Sprintf("%x %x %x %v %v %v", a, b, c, e1, e2, e3)
 		}},
+		// two UEs that happen to hold the same key (state kept per key is then the same object for both), own messages and COUNTs
+		{"NIA2(key equal for all UEs)", func(ue int) string {
+			m, err := security.NASMacCalculate(security.AlgIntegrity128NIA2, c20key(0, 9), uint32(ue+1), 1, uint8(ue&1), msg(ue, 25+ue))
+			return fmt.Sprintf("%x %v", m, err)
+		}},
+		{"NEA2(key equal for all UEs)", func(ue int) string {
+			p := msg(ue, 33+ue)
+			err := security.NASEncrypt(security.AlgCiphering128NEA2, c20key(0, 9), uint32(ue+1), 1, uint8(ue&1), p)
+			return fmt.Sprintf("%x %v", p, err)
+		}},
 		{"NGAP refused encode", func(ue int) string {
 			// an AMF-UE-NGAP-ID below the type's lower bound: the encoder must refuse (what it says is not compared)
 			_, err := tglib.GetUplinkNASTransport(-1, int64(ue+1), msg(ue, 7))
